@@ -242,11 +242,30 @@ fn after_mut(t: &mut Tally, ids: [&'static str; 2], regime: &'static str, got: R
     }
 }
 
-/// An operation the model declares impossible: it must panic. The library matrix is rebuilt
-/// afterwards in every case (an accepted impossible shape leaves a corrupt header behind).
+/// An operation the model declares impossible: it must panic. A rejected operation is a step of the
+/// program like any other: the model is unchanged by it, so the object that survives the panic must
+/// still equal the model (`C15.rejected.state_unchanged`, `C15.rejected.invariant`) and the program
+/// goes on with that very object. Only when the library accepted the impossible shape (it then leaves a
+/// corrupt header behind) or when the surviving object is wrong is the library matrix rebuilt from the model.
 fn must_reject(t: &mut Tally, id: &'static str, regime: &'static str, observed: Result<Value, String>, lib: &mut Matrix, model: &Model, what: &dyn Fn() -> Value) {
-    t.check(id, regime, observed.is_err(), &|| json!({"op": what(), "before": jmodel(model), "observed": observed.as_ref().ok(), "expected": "panic"}));
-    *lib = build(model);
+    let rejected = observed.is_err();
+    t.check(id, regime, rejected, &|| json!({"op": what(), "before": jmodel(model), "observed": observed.as_ref().ok(), "expected": "panic"}));
+    if !rejected {
+        *lib = build(model);
+        return;
+    }
+    survives_rejection(t, regime, lib, model, what);
+}
+
+/// The state of `lib` after a call that panicked, against the (unchanged) model.
+fn survives_rejection(t: &mut Tally, regime: &'static str, lib: &mut Matrix, model: &Model, what: &dyn Fn() -> Value) {
+    let inv = lib.nrows * lib.ncols == lib.data.len();
+    t.check("C15.rejected.invariant", regime, inv, &|| json!({"op": what(), "outcome": "panic (as required)", "before": jmodel(model), "object_after_the_rejected_call": jlib(lib)}));
+    let ok = state_ok(lib, model);
+    t.check("C15.rejected.state_unchanged", regime, ok, &|| json!({"op": what(), "outcome": "panic (as required)", "before": jmodel(model), "object_after_the_rejected_call": jlib(lib), "expected": jmodel(model)}));
+    if !ok {
+        *lib = build(model);
+    }
 }
 
 /// A query that returns a flat value.
@@ -1063,6 +1082,174 @@ fn constructors(t: &mut Tally, rng: &mut Rng, maxn: usize) {
 }
 
 // ---------------------------------------------------------------------------------------------
+// rejection probes: every constructor / conversion that takes a size argument, called with sizes that
+// no row-major matrix can have ("an impossible shape is rejected by a panic"). The model decides: a
+// block of `len` values cannot be laid out in `rows` rows when `rows` does not divide `len`, a slice
+// whose length is not a perfect square has no diagonal, two blocks with different row (column) counts
+// cannot be put side by side (on top of each other). A value where the model has none is the violation;
+// for the predicates the model's answer is "no" (a panic is tolerated, `true` is not). Object-level
+// probes also assert that the object that survives the rejection is unchanged and goes on working.
+
+/// a length in 1..=max that `rows` (>= 2) does not divide, in the classes a caller produces
+fn ragged_len(rng: &mut Rng, rows: usize, max_cols: usize) -> (usize, &'static str) {
+    let k = rng.usize(1, max_cols.max(1));
+    match rng.usize(0, 3) {
+        0 => (rng.usize(1, rows - 1), "fewer values than rows"),
+        1 => (rows * k + 1, "one stray value"),
+        2 => (rows * k - 1, "one value missing"),
+        _ => {
+            let q = rng.usize(1, rows - 1);
+            (rows * (k - 1) + q, "incomplete last column")
+        }
+    }
+}
+
+fn reject_value(t: &mut Tally, id: &'static str, regime: &'static str, observed: Result<Value, String>, what: &dyn Fn() -> Value) {
+    t.check(id, regime, observed.is_err(), &|| json!({"call": what(), "observed": observed.as_ref().ok(), "expected": "panic (no matrix of that shape exists)"}));
+}
+
+fn rejections(t: &mut Tally, rng: &mut Rng, maxn: usize) {
+    let maxn = maxn.max(3);
+    // --- design(x, rows): `x` holds one predictor after the other, `rows` values each
+    {
+        let regime = "reject:design:ragged";
+        t.case(regime);
+        let rows = rng.usize(2, maxn);
+        let (len, class) = ragged_len(rng, rows, 8.min(maxn));
+        let x = distinct_values(rng, len);
+        let got = guard(|| {
+            let d = design(&x, rows);
+            json!({"returned_len": d.len(), "returned": jf(&d)})
+        });
+        reject_value(t, id!("design", "rejects"), regime, got, &|| json!({"call": format!("design(x, {})", rows), "x_len": len, "class": class, "x": jf(&x)}));
+    }
+    // --- layout conversions / slice transpose with a row count that does not divide the length
+    {
+        let (r, c) = (rng.usize(1, maxn), rng.usize(1, maxn));
+        let len = r * c;
+        let data = distinct_values(rng, len);
+        let nondiv: Vec<usize> = (2..=len + 2).filter(|d| len % d != 0).collect();
+        for which in 0..3 {
+            let rows = *rng.choose(&nondiv);
+            let (regime, idn, name) = match which {
+                0 => ("reject:row_to_col_major:non-dividing", id!("row_to_col_major", "rejects"), "row_to_col_major"),
+                1 => ("reject:col_to_row_major:non-dividing", id!("col_to_row_major", "rejects"), "col_to_row_major"),
+                _ => ("reject:transpose(slice):non-dividing", id!("transpose_slice", "rejects"), "transpose"),
+            };
+            t.case(regime);
+            let got = guard(|| {
+                let v: Vec<f64> = match which {
+                    0 => row_to_col_major(&data, rows).v,
+                    1 => col_to_row_major(&data, rows),
+                    _ => transpose(&data, rows),
+                };
+                json!({"returned_len": v.len(), "returned": jf(&v)})
+            });
+            reject_value(t, idn, regime, got, &|| json!({"call": format!("{}(slice of length {}, {})", name, len, rows), "data": jf(&data)}));
+        }
+        // predicates on a slice that is not a matrix with that many rows: never "yes"
+        let rows = *rng.choose(&nondiv);
+        let mut d = data.clone();
+        for i in 0..len {
+            if i % 2 == 0 || rng.chance(0.3) {
+                d[i] = 1.0; // plenty of ones wherever a first column might be looked for
+            }
+        }
+        t.case("nonmatrix:is_design");
+        let got = guard(|| is_design(&d, rows));
+        t.check(id!("is_design", "answer"), "nonmatrix:is_design", got != Ok(true), &|| json!({"call": format!("is_design(slice of length {}, {})", len, rows), "data": jf(&d), "observed": true, "expected": "false or panic: the slice is not a matrix with that many rows"}));
+    }
+    // --- diagonal of a slice whose length is not a perfect square; symmetry of such a slice
+    {
+        let len = loop {
+            let l = rng.usize(2, maxn * maxn);
+            let s = (l as f64).sqrt().round() as usize;
+            if s * s != l {
+                break l;
+            }
+        };
+        let data = if rng.bool() { vec![2.5; len] } else { distinct_values(rng, len) };
+        t.case("reject:diag(slice):non-square");
+        let got = guard(|| jf(&diag(&data).v));
+        reject_value(t, id!("diag_slice", "rejects"), "reject:diag(slice):non-square", got, &|| json!({"call": format!("diag(slice of length {})", len)}));
+        t.case("nonmatrix:is_symmetric(slice)");
+        let got = guard(|| is_symmetric(&data));
+        t.check(id!("is_symmetric_slice", "answer"), "nonmatrix:is_symmetric(slice)", got != Ok(true), &|| json!({"call": format!("is_symmetric(slice of length {})", len), "data": jf(&data), "observed": true, "expected": "false or panic: not a square matrix"}));
+    }
+    // --- constructors / reshapes of a matrix object at constructor sizes; the object survives unchanged
+    {
+        let (r, c) = (rng.usize(1, maxn), rng.usize(1, maxn));
+        let size = r * c;
+        let mut next = rng.usize(0, 50) as f64 * 64.0;
+        let model = fresh(r, c, &mut next);
+        let mut lib = build(&model);
+        let data = flat(&model);
+        let nondiv: Vec<i32> = (2..=size + 2).filter(|d| size % d != 0).map(|d| d as i32).collect();
+        let pick = |rng: &mut Rng| -> (i32, i32, &'static str) {
+            if rng.bool() {
+                let d = *rng.choose(&nondiv);
+                if rng.bool() {
+                    (-1, d, "inferred rows, non-dividing columns")
+                } else {
+                    (d, -1, "inferred columns, non-dividing rows")
+                }
+            } else {
+                let (a, b) = (rng.usize(1, maxn), rng.usize(1, maxn));
+                if a * b == size {
+                    (a as i32, b as i32 + 1, "explicit, one column too many")
+                } else {
+                    (a as i32, b as i32, "explicit, product differs from the element count")
+                }
+            }
+        };
+        let (a, b, class) = pick(rng);
+        t.case("reject:Matrix::new:sizes<=64");
+        let got = guard(|| jlib(&Matrix::new(data.clone(), a, b)));
+        reject_value(t, id!("new", "rejects"), "reject:Matrix::new:sizes<=64", got, &|| json!({"call": format!("Matrix::new({} values, {}, {})", size, a, b), "class": class}));
+        let (a, b, class) = pick(rng);
+        t.case("reject:Vector::reshape:sizes<=64");
+        let got = guard(|| jlib(&Vector::new(data.clone()).reshape(a, b)));
+        reject_value(t, id!("vec_reshape", "rejects"), "reject:Vector::reshape:sizes<=64", got, &|| json!({"call": format!("Vector({} values).reshape({}, {})", size, a, b), "class": class}));
+        // three rejected calls in a row on ONE object, which must come out of each of them unchanged
+        for round in 0..3 {
+            let (a, b, class) = pick(rng);
+            match if round == 2 { 2 + rng.usize(0, 1) } else { 1 - round } {
+                0 => {
+                    let regime = "reject:reshape:sizes<=64";
+                    t.case(regime);
+                    let got = guard(|| jlib(&lib.reshape(a, b)));
+                    must_reject(t, id!("reshape", "rejects"), regime, got, &mut lib, &model, &|| json!({"call": format!("({}x{}).reshape({}, {})", r, c, a, b), "class": class}));
+                }
+                1 => {
+                    let regime = "reject:reshape_mut:sizes<=64";
+                    t.case(regime);
+                    let got = guard(|| {
+                        lib.reshape_mut(a, b);
+                        jlib(&lib)
+                    });
+                    must_reject(t, id!("reshape_mut", "rejects"), regime, got, &mut lib, &model, &|| json!({"call": format!("({}x{}).reshape_mut({}, {})", r, c, a, b), "class": class}));
+                }
+                k => {
+                    let h = k == 2;
+                    let regime = if h { "reject:hcat:sizes<=64" } else { "reject:vcat:sizes<=64" };
+                    t.case(regime);
+                    let d = rng.usize(1, 3);
+                    let (or, oc) = if h { (if r > d && rng.bool() { r - d } else { r + d }, rng.usize(1, 3)) } else { (rng.usize(1, 3), if c > d && rng.bool() { c - d } else { c + d }) };
+                    let other = Matrix::new(vec![0.5; or * oc], or as i32, oc as i32);
+                    let got = guard(|| jlib(&if h { lib.hcat(other) } else { lib.vcat(other) }));
+                    must_reject(t, if h { id!("hcat", "rejects") } else { id!("vcat", "rejects") }, regime, got, &mut lib, &model, &|| json!({"call": format!("({}x{}).{}(other {}x{})", r, c, if h { "hcat" } else { "vcat" }, or, oc)}));
+                }
+            }
+        }
+        // ... and remains usable: a transposition and the flat data after all that
+        t.case("reject:then-use");
+        let nm = mt(&model);
+        let got = guard(|| lib.t());
+        adopt(t, [id!("t", "no_panic"), id!("t", "state")], "reject:then-use", got, &mut lib, &model, &nm, &|| json!("t() on an object that has been through rejected reshapes / concatenations"));
+    }
+}
+
+// ---------------------------------------------------------------------------------------------
 // predicates and comparisons
 
 fn answer(t: &mut Tally, ids: [&'static str; 2], regime: &'static str, got: Result<bool, String>, expect: bool, what: &dyn Fn() -> Value) {
@@ -1664,6 +1851,13 @@ const PROGRAM_REGIMES: [&str; 62] = [
     "row_to_col_major", "col_to_row_major", "accessors", "transpose(slice)", "program",
     "eye", "zeros", "ones", "with_shape", "empty_n",
 ];
+/// rejection probes (stream 5): reached by every run, the Miri smoke run included
+const REJECT_REGIMES: [&str; 12] = [
+    "reject:design:ragged", "reject:row_to_col_major:non-dividing", "reject:col_to_row_major:non-dividing", "reject:transpose(slice):non-dividing",
+    "reject:diag(slice):non-square", "nonmatrix:is_design", "nonmatrix:is_symmetric(slice)",
+    "reject:Matrix::new:sizes<=64", "reject:Vector::reshape:sizes<=64", "reject:then-use",
+    "reject:reshape_mut:sizes<=64", "reject:reshape:sizes<=64",
+];
 const OTHER_REGIMES: [&str; 33] = [
     "diag_matrix", "diag(slice)", "toeplitz", "vandermonde", "design", "linspace:num=1", "linspace:num=2", "linspace:num>=3",
     "arange:empty", "arange:frac∈[.05,.95]", "arange:near-integer", "rotation:X", "rotation:Y", "rotation:Z",
@@ -1673,8 +1867,8 @@ const OTHER_REGIMES: [&str; 33] = [
 ];
 
 pub fn run(cfg: &Cfg, rep: &mut Report) {
-    rep.rule = "random programs of 1..40 structural operations (30 kinds, ~60 regimes incl. the must-panic variants) over matrices that start at 1..8 x 1..8 with pairwise distinct entries, \
-                run in lock-step with a Vec<Vec<f64>> model (Miri smoke: 300 programs of 1..3 operations); constructors at sizes 1..64 with real start/stop/step and angles in +-4pi x 3 axes; \
+    rep.rule = "random programs of 1..40 structural operations (30 kinds, ~60 regimes incl. the must-panic variants, after which the surviving object must equal the unchanged model and is used on) over matrices that start at 1..8 x 1..8 with pairwise distinct entries, \
+                run in lock-step with a Vec<Vec<f64>> model (Miri smoke: 300 programs of 1..3 operations); constructors at sizes 1..64 with real start/stop/step and angles in +-4pi x 3 axes; rejection probes (ragged design block, non-dividing row counts for the layout conversions and the slice transpose, non-square diag, Matrix::new / Vector::reshape / reshape / reshape_mut / hcat / vcat with inconsistent sizes up to 64 x 64, three rejected calls in a row on one object which is then transposed); \
                 predicates and comparisons on constructed positives/negatives, on special-value matrices (signs, zeros, near-ones) over every shape 1..8 x 1..8, on prefix/extension and reshaped operands, and on values at the ends of the f64 range (magnitudes 5e-324..1.8e308 in three bands, signed zeros: opposite-sign / identical / near / far pairs for close_to and ==, symmetric and triangular predicates). non-trivial program = at least 3 shape-changing operations; distinct by hash of (start shape, operation codes, intermediate shapes)"
         .into();
     rep.assume("concatenation / repetition is only applied while the result stays within 8 rows and 8 columns (reshape may produce any factorisation of at most 64 elements)");
@@ -1683,6 +1877,8 @@ pub fn run(cfg: &Cfg, rep: &mut Report) {
     rep.assume("predicates are decided on clear positives/negatives (asymmetry or deviation >= 1e-3 * scale); comparisons on pairs that are identical, within tol/10, beyond 10*tol, or of opposite sign with magnitudes >= 1e3 * tol");
     rep.assume("extreme-magnitude comparisons: close_to is relative (rel_diff), so non-zero values of opposite sign must be reported not close at every magnitude 5e-324..1.8e308 and every tol in 1e-12..1e-2; +0.0/-0.0 are equal; same-sign pairs within tol/10 (normal numbers 1e-290..1e300) must be reported close. `==` is absolute (|x-y| <= f64::EPSILON): opposite signs are asserted for magnitudes >= 1e3*EPSILON only (below that the definition itself equates them, e.g. [1e-300] == [-1e-300])");
     rep.assume("special-value predicates: entries from {1, -1, 0, -0, 0.5, 2, -2, 1.001, 0.999, -0.5, 3, 1e-3}; a design matrix has every first-column entry equal to one (so -1, 0, 1 +- 1e-3 are not), zeros of either sign are zero for the triangular predicates, a mirrored pair (v, -v) or (v, 1.001 v) breaks symmetry; operands of different length or shape are never equal / close even when all common elements agree");
+    rep.assume("a call that the model rejects (and that panics) is a step of the program: the model is unchanged by it, so the library object that survives the panic must still equal the model (shape, every element, rows*cols == len) and the program continues on that very object; it is rebuilt from the model only after a failed assertion");
+    rep.assume("rejection probes: a block of len values has no layout with `rows` rows when rows does not divide len (design, row_to_col_major, col_to_row_major, transpose(slice), Matrix::new, Vector::reshape, reshape, reshape_mut), a slice of non-square length has no diagonal, blocks with different row (column) counts cannot be concatenated: a returned value is the violation. For is_design / is_symmetric on such slices a panic or `false` are both accepted, `true` is not");
     rep.assume("arange: the exact ratio (stop-start)/step is evaluated in double-double; the point count is only pinned (= ceil) when its fractional part lies in [0.05, 0.95]");
     let lean = cfg.miri();
     let n_prog = cfg.pick(2000, 50000, 300);
@@ -1692,23 +1888,28 @@ pub fn run(cfg: &Cfg, rep: &mut Report) {
     let n_xcmp = if cfg.lite { 60 } else { cfg.pick(1500, 30000, 60) };
     let n_special = if cfg.lite { 128 } else { cfg.pick(1920, 38400, 128) }; // multiples of the 64 shapes
     if cfg.miri() {
-        // one case, one tally, one flush (every `Report` map operation costs ~10 ms under Miri)
-        par_cases(cfg, rep, 1, 1, |_i, rng, rep| {
+        // eight cases (spread over the Miri shard processes by the driver), each with one tally and one
+        // flush (every `Report` map operation costs ~10 ms under Miri)
+        const MIRI_CASES: usize = 8;
+        par_cases(cfg, rep, 1, MIRI_CASES, |i, rng, rep| {
             let mut t = Tally::new(lean);
-            for _ in 0..n_prog {
+            for _ in 0..(n_prog + MIRI_CASES - 1) / MIRI_CASES {
                 let len = rng.usize(1, 3);
                 program(&mut t, rng, len);
             }
-            for _ in 0..n_ctor {
+            if i < n_ctor {
                 constructors(&mut t, rng, maxn);
                 predicates(&mut t, rng, maxn);
                 comparisons(&mut t, rng, maxn);
                 comparisons_extreme(&mut t, rng);
                 predicates_extreme(&mut t, rng);
             }
-            for i in 0..6 {
+            if i < 6 {
                 predicates_special(&mut t, rng, 9 * i + 1);
                 comparisons_prefix(&mut t, rng);
+            } else {
+                // rejection probes: a panic costs ~0.1 s in the interpreter, two rounds (about 20 panics)
+                rejections(&mut t, rng, maxn);
             }
             t.flush(rep);
         });
@@ -1742,9 +1943,23 @@ pub fn run(cfg: &Cfg, rep: &mut Report) {
             comparisons_prefix(&mut t, rng);
             t.flush(rep);
         });
+        // rejection probes for every size-taking constructor / conversion (stream 5)
+        let n_rej = if cfg.lite { 60 } else { cfg.pick(600, 12000, 60) };
+        par_cases(cfg, rep, 5, n_rej, |i, rng, rep| {
+            let mut t = Tally::new(lean);
+            rejections(&mut t, rng, if i % 3 == 0 { 8 } else { maxn });
+            t.flush(rep);
+        });
         for r in EXTREME_REGIMES.iter().chain(SPECIAL_REGIMES.iter()) {
             rep.require(r, 1);
         }
+    }
+    for r in REJECT_REGIMES.iter() {
+        rep.require(r, 1);
+    }
+    if !cfg.miri() {
+        rep.require("reject:hcat:sizes<=64", 1);
+        rep.require("reject:vcat:sizes<=64", 1);
     }
     for r in PROGRAM_REGIMES.iter().chain(OTHER_REGIMES.iter()) {
         if cfg.miri()
